@@ -36,14 +36,18 @@ def gen_case(rng):
     assets = NAMES[:n]
     long_only = rng.random() < 0.5
     steps = []
-    level = {a: 10 ** rng.uniform(0, 2.7) for a in assets}
+    calm = rng.random() < 0.2          # a big account, cheap assets, fixed weights and price moves of 0.001%: orders of a few units
+    level = {a: (rng.uniform(2.0, 10.0) if calm else 10 ** rng.uniform(0, 2.7)) for a in assets}
+    calm_w = {a: round(rng.uniform(0.2, 1.0), 2) * (1 if long_only or rng.random() < 0.5 else -1) for a in assets}
     for _ in range(rng.randint(3, 8)):
         quotes = {}
         for a in assets:
             # moderate moves between rebalances: equity must stay in a range where share counts are exact in floats
-            level[a] = min(max(level[a] * rng.uniform(0.7, 1.4), 0.5), 5000.0)
+            level[a] = min(max(level[a] * (rng.uniform(0.99999, 1.00001) if calm else rng.uniform(0.7, 1.4)), 0.5), 5000.0)
             bid = round(level[a], rng.choice([2, 4]))
             quotes[a] = [bid, round(bid + rng.choice([0.01, 0.02, 0.05, 0.25]), 4)]
+            if calm:
+                quotes[a] = [round(level[a], 6), round(level[a] + 0.0001, 6)]
         universe = [a for a in assets if rng.random() < 0.6]
         rng.shuffle(universe)
         keys_mode = rng.choice(['universe', 'subset', 'superset', 'disjoint', 'empty'])
@@ -63,12 +67,16 @@ def gen_case(rng):
             if not long_only and rng.random() < 0.5:
                 x = -x
             w[a] = x
+        if calm:
+            universe, w, keys_mode = list(assets), dict(calm_w), 'universe'
         steps.append({'quotes': quotes, 'universe': universe, 'weights': w, 'keys_mode': keys_mode})
     seed_holdings = {a: rng.choice([1, -1]) * rng.randint(1, 500) for a in assets if rng.random() < 0.5}
     fee = ['zero'] if rng.random() < 0.5 else ['pct', rng.choice([0.001, 0.01]), rng.choice([0.0, 0.005])]
     return {'assets': assets, 'long_only': long_only, 'buffer': rng.choice([0.0, 0.05, 0.3]),
-            'leverage': rng.choice([0.5, 1.0, 2.0]), 'fee': fee, 'cash': float(rng.choice([1e5, 1e6, 2.5e7])),
-            'seed_holdings': seed_holdings, 'steps': steps}
+            'leverage': rng.choice([0.5, 1.0, 2.0]), 'fee': fee,
+            'cash': float(rng.choice([1e7, 2.5e7, 1e8])) if calm else float(rng.choice([1e5, 1e6, 2.5e7])),
+            'seed_holdings': {} if calm else seed_holdings, 'steps': steps, 'calm': calm,
+            'other_portfolio': rng.choice([None, None, 'before', 'after', 'after'])}
 
 
 def run_case(case, acc):
@@ -90,7 +98,12 @@ def run_case(case, acc):
     fee = case['fee']
     fm = ZeroFeeModel() if fee[0] == 'zero' else PercentFeeModel(commission_pct=fee[1], tax_pct=fee[2])
     broker = SimulatedBroker(t, SimulatedExchange(t), book, initial_funds=case['cash'], fee_model=fm)
+    # the account may hold another, idle portfolio created before or after the one being rebalanced
+    if case.get('other_portfolio') == 'before':
+        broker.create_portfolio('A_IDLE')
     broker.create_portfolio('P')
+    if case.get('other_portfolio') == 'after':
+        broker.create_portfolio('Z_IDLE')
     broker.subscribe_funds_to_portfolio('P', case['cash'])
     for a, q in case['seed_holdings'].items():
         broker.submit_order('P', Order(t, a, q))
@@ -133,6 +146,10 @@ def run_case(case, acc):
             if held != want:
                 raise Violation('C09', 'holdings-not-on-target', 'after the orders filled holdings are %s, target was %s '
                                 '(step %d, held before %s, orders %s)' % (held, want, i, rec['held'], rec['orders']), {})
+            for other in ('A_IDLE', 'Z_IDLE'):
+                if other in broker.portfolios and broker.get_portfolio_as_dict(other):
+                    raise Violation('C09', 'fills-in-another-portfolio', 'the idle portfolio %s received positions %s from the '
+                                    'rebalance of P' % (other, broker.get_portfolio_as_dict(other)), {})
             for a in rec['held']:
                 if a not in st['weights'] and a in held:
                     raise Violation('C09', 'dropped-asset-not-liquidated', 'held asset %s got no weight but is still held' % a, {})
